@@ -164,7 +164,7 @@ func (w *worker) run(p *pool, j *job, limit time.Duration) {
 		w.in.WriteByte('\n')
 		w.known[j.b.ID] = true
 	}
-	rq, _ := json.Marshal(map[string]any{"id": j.b.ID, "mut": j.mut, "extra": j.extra, "subsets": j.subsets})
+	rq, _ := json.Marshal(map[string]any{"id": j.b.ID, "mut": j.mut, "extra": j.extra, "subsets": j.subsets, "subset_only": j.subsetOnly})
 	w.errb.Reset()
 	w.in.WriteString("case ")
 	w.in.Write(rq)
